@@ -15,6 +15,16 @@ CLAIMED = {
         text="Exploration: every generated configuration/history is run through the real pull/receive_reward/get_last_point loop and judged by an explicit totality + domain-membership predicate after every call. Absence of a counter-example is evidence, not proof; the evidence file reports the measured class distribution (algorithm x partition pairs).",
         note="Preconditions of DESIGN 2.2 are assumed (documented parameter ranges, depth caps that hold the budget, T <= n). Open findings D8-D11 (known_findings.json) are excluded by full signature and reported as KNOWN-FINDING lines. 'Never hangs' = 60 s alarm, then a deterministic budget of 2e7 traced lines per call.",
         ref="4/C01"),
+    "C02": dict(
+        technique="property-based testing (Hypothesis): generated boxes x expansion orders x injected split dimensions/fractions (end points included); exact geometric validity predicate (grid tiling with Fraction arithmetic) after every split, also riding on generated algorithm runs",
+        text="Exploration with an oracle that is exact on every explored instance: arity, containment, union == parent and disjoint interiors on the grid induced by all child boundaries (which forces bit-identical shared faces), only split dimensions change, equal sides (8 ulp) for the equal-size classes, centre == midpoint (1 ulp), leaves tile the root. The continuum of real boxes is sampled, not enclosed.",
+        note="Boxes finite with lo<hi and |x|<=1e100. Split outcomes are injected by replacing np.random.randint/uniform in-process with stubs that compute lo+(hi-lo)*u exactly as NumPy documents, u in [0,1).",
+        ref="4/C02"),
+    "C03": dict(
+        technique="stateful property-based testing (Hypothesis RuleBasedStateMachine over deepen/expand histories) plus the same structural invariant after every round of generated runs of every algorithm",
+        text="Exploration: a rule-based state machine generates interleavings of deepen() and make_children(leaf, newlayer=callers' convention) on every partition class; after every step an invariant compares the per-depth node lists with the tree reachable from the root (each cell once, right layer, parent/child links both ways, no child list aliasing a layer, depth bookkeeping, label arithmetic). The same invariant is evaluated on every partition created by generated algorithm runs (including every learner of POO/GPO) after every round.",
+        note="Only leaves are expanded directly, with the documented newlayer convention (the property's quantifier). Histories are capped at 3000 cells. A crash of the code under test aborts the case (C01's business).",
+        ref="4/C03"),
 }
 
 NOT_YET = "check not built yet in this round (planned in DESIGN.md section 4); property-based testing applies"
